@@ -320,6 +320,17 @@ func c09(c *core.Ctx) {
 			code = -400
 		}
 		for k := 0; k < reps; k++ {
+			if k == 1 {
+				// the code has been logged meanwhile, the way values are logged (fmt verbs find any Stringer / error / Formatter
+				// the type has; an attribute holding it is formatted too): which codes have a default reason is not changed by that
+				ec := stun.ErrorCode(code)
+				_ = fmt.Sprintf("%v|%s|%d|%+v|%q", ec, ec, ec, ec, ec)
+				_ = fmt.Sprint(stun.ErrorCodeAttribute{Code: ec}, &stun.ErrorCodeAttribute{Code: ec, Reason: []byte("logged")})
+				if st, ok := interface{}(ec).(fmt.Stringer); ok {
+					_ = st.String()
+				}
+				c.Count("error_codes_formatted_before_use", 1)
+			}
 			m := c09Preceding(r)
 			c09Try(c, m, fmt.Sprintf("ErrorCode(%d).AddTo", code), stun.ErrorCode(code), c09DefaultReason[code], "no-default-reason", 0x0009)
 		}
@@ -367,6 +378,12 @@ func c09(c *core.Ctx) {
 			}
 			m = m2
 			what += " on a decoded message with bytes behind it"
+		}
+		if r.Chance(1, 4) {
+			// the same message as a value assembled from the exported fields of the first (a struct literal, a field-by-field
+			// copy, a value restored by an encoder that knows only exported fields): what it holds is what counts
+			m = &stun.Message{Type: m.Type, Length: m.Length, TransactionID: m.TransactionID, Attributes: m.Attributes, Raw: m.Raw}
+			what += " on a message assembled from exported fields"
 		}
 		c09Try(c, m, what, stun.NewShortTermIntegrity(string(r.Bytes(r.Intn(30)))),
 			fpAt < 0, "fingerprint-before-integrity", 0x0008)
